@@ -10,7 +10,7 @@ mkdir -p "$SCR" && trap 'rm -rf "$SCR"' EXIT INT TERM
 rsync -a --exclude .git /repo/ "$SCR/repo/" || exit 2
 ( cd "$SCR/repo" && git init -q . 2>/dev/null; git apply --whitespace=nowarn "$PATCH" 2>/dev/null || patch -p1 -s --fuzz=3 --no-backup-if-mismatch < "$PATCH" ) || { echo "patch does not apply"; exit 2; }
 for id in "$@"; do
-  VERIF_REPO="$SCR/repo" VERIF_MUTANT=1 "$VERIF_DIR/check" "$id" ${VERIF_TIER:-quick} > "$SCR/$id.log" 2>&1
+  VERIF_REPO="$SCR/repo" VERIF_MUTANT=1 VERIF_REPLAYS="${MUTANT_REPLAYS:-$SCR/replays}" VERIF_EVIDENCE_DIR="$SCR/evidence" "$VERIF_DIR/check" "$id" ${VERIF_TIER:-quick} > "$SCR/$id.log" 2>&1
   rc=$?
   echo "$id exit=$rc $(grep -m1 -A2 '^VIOLATION' "$SCR/$id.log" | tr '\n' ' ' | cut -c1-300)"
   [ $rc -eq 2 ] && tail -5 "$SCR/$id.log"
